@@ -5,6 +5,7 @@ import (
 	"go/token"
 	"go/types"
 	"sort"
+	"strconv"
 	"strings"
 
 	"golang.org/x/tools/go/ssa"
@@ -633,6 +634,9 @@ type gobItem struct {
 	callee string
 	guards []string
 	in     ssa.Instruction
+	sub    int                      // position within the run of values one table-loop call encodes (robust_c15.go), else 0
+	loop   *Loop                    // the table loop of such a call, else nil
+	errOut map[*ssa.BasicBlock]bool // blocks reachable after that loop was left on an encoding error
 }
 
 func (g gobItem) String() string {
@@ -731,6 +735,49 @@ func (c *c15) gobSeq(fn *ssa.Function, enc bool, subjIdx int) ([]gobItem, string
 		switch {
 		case enc && (name == "gob.Encoder.Encode" || name == "gob.Encoder.EncodeValue"):
 			x := tm.Of(ci.Call.Args[1])
+			if inLoop != nil {
+				// table form: `for _, v := range []interface{}{subj.A, subj.B, ..} { if err := enc.EncodeValue(reflect.ValueOf(v)); err != nil { return err } }`
+				// is the run of statements encoding subj.A, subj.B, .. in this order
+				operand := ci.Call.Args[1]
+				if name == "gob.Encoder.EncodeValue" {
+					operand = nil
+					if vc, isCall := ci.Call.Args[1].(*ssa.Call); isCall && len(vc.Call.Args) == 1 {
+						if vn, _ := calleeName(&vc.Call); vn == "reflect.ValueOf" {
+							operand = vc.Call.Args[0]
+						}
+					}
+				}
+				if operand != nil {
+					if vals, errExits, isTab := c15TableLoop(inLoop, ci, operand); isTab {
+						if len(OuterLoops(loops, inLoop.Header)) != 1 {
+							why = "a value table is encoded inside an enclosing loop"
+							return
+						}
+						gs := guardsOf(in)
+						errOut := c15ReachableFrom(errExits)
+						for k, v := range vals {
+							xv := tm.Of(v)
+							for xv.Op == "iface" {
+								xv = xv.Args[0]
+							}
+							it := gobItem{in: in, guards: gs, sub: k, loop: inLoop, errOut: errOut}
+							if ps, ok := subjPath(xv); ok {
+								it.kind, it.name = "field", ps
+							} else if xv.Op == "len" {
+								if ps, ok := subjPath(xv.Args[0]); ok {
+									it.kind, it.name = "len", ps
+								}
+							}
+							if it.kind == "" {
+								why = "encodes " + xv.String() + " (entry " + strconv.Itoa(k) + " of a value table), which is not a field of the record"
+								return
+							}
+							items = append(items, it)
+						}
+						return
+					}
+				}
+			}
 			if name == "gob.Encoder.EncodeValue" {
 				if x.Op == "call" && x.Name == "reflect.ValueOf" {
 					x = x.Args[0]
@@ -857,15 +904,31 @@ func (c *c15) gobSeq(fn *ssa.Function, enc bool, subjIdx int) ([]gobItem, string
 	if why != "" {
 		return nil, why
 	}
-	// order by dominance
+	// order by dominance. The values of a table loop are ordered by their table index; an operation outside the loop comes
+	// after all of them when it can only be reached by leaving the loop (the header dominates it) and not by the error exit.
+	before := func(a, b gobItem) bool {
+		if a.in == b.in {
+			return a.sub < b.sub
+		}
+		if a.loop != nil && !a.loop.Blocks[b.in.Block()] && a.loop.Header.Dominates(b.in.Block()) {
+			return true
+		}
+		return instrBefore(a.in, b.in)
+	}
 	for i := range items {
 		for j := range items {
-			if i != j && !instrBefore(items[i].in, items[j].in) && !instrBefore(items[j].in, items[i].in) {
+			if i == j {
+				continue
+			}
+			if items[i].loop != nil && items[i].in != items[j].in && items[i].errOut[items[j].in.Block()] {
+				return nil, "a wire operation is reachable after the value-table loop was left on an encoding error"
+			}
+			if !before(items[i], items[j]) && !before(items[j], items[i]) {
 				return nil, "two wire operations are not ordered by dominance (branching encoders are not supported)"
 			}
 		}
 	}
-	sort.SliceStable(items, func(i, j int) bool { return instrBefore(items[i].in, items[j].in) })
+	sort.SliceStable(items, func(i, j int) bool { return before(items[i], items[j]) })
 	return items, ""
 }
 
